@@ -745,3 +745,111 @@ E('C01', 'ne-branches', BLK, """        if previous == value:
             return True
         return False
 """)
+
+# ----------------------------------------------------------------------------- C02
+V('C02', 'previous-after-write', BLK, """        previous = self._output
+        if previous == value:
+            if not self._every_output_events:
+                return
+            self.log_debug("output: %s (unchanged)", value)
+        else:
+            self.log_debug("output: %s -> %s", previous, value)
+            self._output = value
+""", """        previous = self._output
+        if previous == value:
+            if not self._every_output_events:
+                return
+            self.log_debug("output: %s (unchanged)", value)
+        else:
+            self.log_debug("output: %s -> %s", previous, value)
+            self._output = value
+            previous = self._output
+""", 'R02.1')
+V('C02', 'is-compare', BLK, """        previous = self._output
+        if previous == value:
+            if not self._every_output_events:""", """        previous = self._output
+        if previous is value:
+            if not self._every_output_events:""", 'R02.2')
+V('C02', 'every-before-output', BLK, """            self._output = value
+            self.circuit.sblock_queue.put_nowait(self)
+            for event in self._output_events:
+                event.send(self, trigger='output', previous=previous, value=value)
+        for event in self._every_output_events:
+            event.send(self, trigger='output', previous=previous, value=value)
+""", """            self._output = value
+            self.circuit.sblock_queue.put_nowait(self)
+        for event in self._every_output_events:
+            event.send(self, trigger='output', previous=previous, value=value)
+        if previous != value:
+            for event in self._output_events:
+                event.send(self, trigger='output', previous=previous, value=value)
+""", 'R02.2')
+V('C02', 'every-only-when-changed', BLK, """                event.send(self, trigger='output', previous=previous, value=value)
+        for event in self._every_output_events:
+            event.send(self, trigger='output', previous=previous, value=value)
+""", """                event.send(self, trigger='output', previous=previous, value=value)
+            for event in self._every_output_events:
+                event.send(self, trigger='output', previous=previous, value=value)
+""", 'R02.2')
+V('C02', 'deferred-delivery', BLK, """        source.log_debug("sending event %s", self)
+        dest.event(self._etype, **data)
+        return True""", """        source.log_debug("sending event %s", self)
+        import asyncio
+        asyncio.get_running_loop().call_soon(lambda: dest.event(self._etype, **data))
+        return True""", 'R02.3')
+V('C02', 'dedup-events', BLK, """    elif _is_multiple(args):
+        args = tuple(args)""", """    elif _is_multiple(args):
+        args = tuple(dict.fromkeys(args))""", 'R02.5')
+V('C02', 'wrong-trigger', BLK, """        for event in self._every_output_events:
+            event.send(self, trigger='output', previous=previous, value=value)""", """        for event in self._every_output_events:
+            event.send(self, trigger='every_output', previous=previous, value=value)""", 'R02.1')
+V('C02', 'value-swapped', BLK, """        for event in self._output_events:
+            event.send(self, trigger='output', previous=previous, value=value)
+        return True""", """        for event in self._output_events:
+            event.send(self, trigger='output', previous=value, value=previous)
+        return True""", 'R02.1')
+V('C02', 'second-delivery', BLK, """        dest.event(self._etype, **data)
+        return True""", """        dest.event(self._etype, **data)
+        if data.get('repeat_once'):
+            dest.event(self._etype, **data)
+        return True""", 'R02.4')
+V('C02', 'events-rewritten', S1, "    def init_regular(self) -> None:\n        self.set_output(0)\n\n    async def _maintask(self) -> NoReturn:\n        repeating = False", "    def init_regular(self) -> None:\n        self._output_events = ()\n        self.set_output(0)\n\n    async def _maintask(self) -> NoReturn:\n        repeating = False", 'R02.6')
+V('C02', 'asyncinit-no-super', ADD, """        super().set_output(value)
+        if not self._init_event.is_set():
+            self._init_event.set()""", """        if not self._init_event.is_set():
+            self._init_event.set()
+            super().set_output(value)""", 'R02.7')
+V('C02', 'early-return-drops-every', BLK, """            if not self._every_output_events:
+                return
+            self.log_debug("output: %s (unchanged)", value)""", """            return""", 'R02.2')
+V('C02', 'reversed-loop', BLK, """            for event in self._output_events:
+                event.send(self, trigger='output', previous=previous, value=value)
+        for event in self._every_output_events:""", """            for event in reversed(self._output_events):
+                event.send(self, trigger='output', previous=previous, value=value)
+        for event in self._every_output_events:""", 'R02')
+E('C02', 'kw-order', BLK, """        for event in self._every_output_events:
+            event.send(self, trigger='output', previous=previous, value=value)""", """        for event in self._every_output_events:
+            event.send(self, value=value, previous=previous, trigger='output')""")
+E('C02', 'ne-form', BLK, """        previous = self._output
+        if previous == value:
+            if not self._every_output_events:
+                return
+            self.log_debug("output: %s (unchanged)", value)
+        else:
+            self.log_debug("output: %s -> %s", previous, value)
+            self._output = value
+            self.circuit.sblock_queue.put_nowait(self)
+            for event in self._output_events:
+                event.send(self, trigger='output', previous=previous, value=value)
+""", """        previous = self._output
+        if previous != value:
+            self.log_debug("output: %s -> %s", previous, value)
+            self._output = value
+            self.circuit.sblock_queue.put_nowait(self)
+            for event in self._output_events:
+                event.send(self, trigger='output', previous=previous, value=value)
+        else:
+            if not self._every_output_events:
+                return
+            self.log_debug("output: %s (unchanged)", value)
+""")
